@@ -1176,7 +1176,13 @@ def check_only_update(rep, fl):
                     variants.add(a[2])
         if inner[0] == "agg" and inner[2].endswith("Option::None"):
             n_none += 1
-            ok = all(feval(A(ou), s) is True for s in sts) and "Update" not in variants
+            # (a closed cache queues nothing either, wherever the insert tests the flag)
+            import props_life as _pl
+            closed = lambda s_: [v_ for a_, v_ in s_.lits if _pl.is_closed_lit(a_)] == [True]
+            if sts and all(closed(s_) for s_ in sts):
+                n_none -= 1
+                continue
+            ok = all(feval(A(ou), s) is True or closed(s) for s in sts) and "Update" not in variants
             rep.check(ok, "R09.1", fl, tu, "Ok(None)", "nothing is queued exactly when only_update is set and the store did not update",
                       "Ok(None) returned on a path where only_update is not set (or after an update)")
         elif inner[0] == "agg" and inner[2].endswith("Option::Some"):
